@@ -37,7 +37,7 @@ MCDistUpdates == {
 
 C1(n) == [d \in Denoms |-> IF d = "uc4e" THEN n ELSE 0]
 \* transaction fees arrive on the fee collector (the main account is a blocked address: nobody can send to it)
-MCFeeVecs == { ("MOD-fc" :> C1(8)), ("MOD-fc" :> C1(3)) }
+MCFeeVecs == { ("MOD-fc" :> C1(8)), ("MOD-fc" :> C1(3)) } \cup (IF "stake" \in Denoms THEN { ("MOD-fc" :> [d \in Denoms |-> IF d = "stake" THEN 6 ELSE 0]) } ELSE {})
 
 \* opaque messages: executed for real by the harness (cfevesting / cfesignature), supply neutral
 MCScript == << [m |-> "createpool", amt |-> 10], [m |-> "send", amt |-> 4], [m |-> "split", amt |-> 1], [m |-> "withdraw"], [m |-> "publish"] >>
